@@ -102,7 +102,11 @@ type FileLayout struct {
 	// TopSidxGap > 0: a free box of that many bytes (>= 8) follows the top-level sidx, and the sidx says so in
 	// first_offset (the indexed material starts behind the free box)
 	TopSidxGap int `json:",omitempty"`
-	Mfra     bool // mfra (tfra per track + mfro) at the end
+	// TopSidxSplit = k with 0 < k < len(Segments): the top-level index is written as TWO chained sidx boxes behind
+	// moov (both version 1): the first references segments 0..k-1 and skips the second box in first_offset, the
+	// second references segments k.. and skips the first k segments in first_offset
+	TopSidxSplit int  `json:",omitempty"`
+	Mfra         bool // mfra (tfra per track + mfro) at the end
 	// MfraFirstTrackOnly restricts the mfra to one tfra for tracks[0].
 	MfraFirstTrackOnly bool
 	SeqStart           uint32 // mfhd sequence_number of the first fragment
@@ -150,6 +154,7 @@ type SegTruth struct {
 type Truth struct {
 	InitSize  uint64   // ftyp+moov; a TopSidx, if any, follows inside the returned init bytes
 	TopSidx   *BoxInfo // nil if absent
+	TopSidx2  *BoxInfo // the second box of a split top-level index (TopSidxSplit)
 	Segments  []SegTruth
 	Mfra      *BoxInfo
 	MfraBytes []byte    // to be appended after the last segment
